@@ -31,11 +31,13 @@ inductive Sh where
   | polygon (pts : List Q3)
   /-- `{p | n·p ≤ 0}` -/
   | halfspace (n : Q3)
+  /-- `RoundShape { inner_shape, border_radius }`: the Minkowski sum of `inner` and the ball of radius `r` -/
+  | round (inner : Sh) (r : Rat)
 
 def Sh.kind : Sh → String
   | .ball _ => "ball" | .cuboid _ => "cuboid" | .capsule .. => "capsule" | .segment .. => "segment"
   | .triangle .. => "triangle" | .cone .. => "cone" | .cylinder .. => "cylinder" | .poly3 _ => "convex"
-  | .polygon _ => "convex" | .halfspace _ => "halfspace"
+  | .polygon _ => "convex" | .halfspace _ => "halfspace" | .round i _ => "round" ++ i.kind
 
 def Sh.isHalfspace : Sh → Bool
   | .halfspace _ => true
@@ -62,6 +64,7 @@ def Sh.size : Sh → Rat
   | .poly3 pts => maxList (pts.map normQ)
   | .polygon pts => maxList (pts.map normQ)
   | .halfspace _ => 0
+  | .round i r => i.size + absQ r
 
 /-- local support function `h_S(d) = max_{x∈S} d·x`; `none` = unbounded (half-space) -/
 def Sh.supp (s : Sh) (d : Q3) : Option Rat :=
@@ -76,6 +79,7 @@ def Sh.supp (s : Sh) (d : Q3) : Option Rat :=
   | .poly3 pts => some (maxList (pts.map d.dot))
   | .polygon pts => some (maxList (pts.map d.dot))
   | .halfspace _ => none
+  | .round i r => (i.supp d).map (· + r * normQ d)
 
 def clamp01 (t : Rat) : Rat := if t < 0 then 0 else if 1 < t then 1 else t
 
@@ -163,9 +167,47 @@ def memPolygon (pts : List Q3) (p : Q3) (tol : Rat) : Bool :=
       else if vals.all (· ≥ 0) then leTolN (-x) tol nn
       else true
 
+/-- exact (up to `sqrtQ`) squared distance from `p` to a solid shape, where a closed form is available -/
+def Sh.distSq? (s : Sh) (p : Q3) : Option Rat :=
+  match s with
+  | .cuboid he =>
+      let ex := maxQ 0 (absQ p.x - he.x); let ey := maxQ 0 (absQ p.y - he.y); let ez := maxQ 0 (absQ p.z - he.z)
+      some (ex * ex + ey * ey + ez * ez)
+  | .segment a b => some (distSqSeg p a b)
+  | .triangle a b c => some (distSqTriangle p a b c)
+  | .cylinder hh r =>
+      let er := maxQ 0 (sqrtQ (p.x * p.x + p.z * p.z) - r); let ey := maxQ 0 (absQ p.y - hh)
+      some (er * er + ey * ey)
+  | .cone hh r =>
+      -- by rotational symmetry: distance in the (radial, axial) half-plane to the triangle (-r,-hh) (r,-hh) (0,hh)
+      some (distSqTriangle ⟨sqrtQ (p.x * p.x + p.z * p.z), p.y, 0⟩ ⟨-r, -hh, 0⟩ ⟨r, -hh, 0⟩ ⟨0, hh, 0⟩)
+  | .poly3 pts =>
+      -- full-dimensional hull: 0 inside, else the nearest of all vertex triangles (every face is a union of such)
+      if memPoly3 pts p 0 then some 0 else
+      match (triples pts).map fun (a, b, c) => distSqTriangle p a b c with
+      | [] => none
+      | e :: es => some (es.foldl minQ e)
+  | .polygon pts =>
+      -- planar convex polygon: 0 inside, else the nearest edge
+      let es := (pts.zip (pts.rotateLeft 1)).map fun (a, b) => distSqSeg p a b
+      let inside := (triples.pairs pts).all fun (a, b) =>
+        let e := b.sub a
+        let n : Q3 := ⟨e.y, -e.x, 0⟩
+        let vals := pts.map fun v => n.dot (v.sub a)
+        let x := n.dot (p.sub a)
+        if vals.all (· ≤ 0) then x ≤ 0 else if vals.all (· ≥ 0) then x ≥ 0 else true
+      match es with
+      | [] => none
+      | e :: es' => some (if inside then p.z * p.z else es'.foldl minQ e)
+  | _ => none
+
 /-- is `p` within (about) `tol` of the shape, in the shape's local frame -/
 def Sh.mem (s : Sh) (p : Q3) (tol : Rat) : Bool :=
   match s with
+  | .round i r => match i.distSq? p with
+      | some d2 => d2 ≤ (r + tol) * (r + tol)
+      -- no exact distance for the core (ball/capsule/half-space cores are never rounded by the generators): core only
+      | none => i.mem p tol
   | .ball r => p.normSq ≤ (r + tol) * (r + tol)
   | .cuboid he => absQ p.x ≤ he.x + tol && absQ p.y ≤ he.y + tol && absQ p.z ≤ he.z + tol
   | .capsule a b r => distSqSeg p a b ≤ (r + tol) * (r + tol)
@@ -191,6 +233,7 @@ def Sh.samplePts : Sh → List Q3
   | .poly3 pts => pts
   | .polygon pts => pts
   | .halfspace _ => []
+  | .round i _ => i.samplePts
 
 /-! ## poses as exact affine maps -/
 
@@ -330,6 +373,9 @@ def coreOf (s : Placed) : Option Core :=
   | .capsule a b r => some (segmentCore a b s.pose r)
   | .segment a b => some (segmentCore a b s.pose 0)
   | .triangle a b c => some (triangleCore a b c s.pose)
+  | .round (.cuboid he) r => some { cuboidCore he s.pose with radius := r }
+  | .round (.triangle a b c) r => some { triangleCore a b c s.pose with radius := r }
+  | .round (.segment a b) r => some (segmentCore a b s.pose r)
   | _ => none
 
 /-- does some candidate axis (face normals, edge × edge) strictly separate the vertex sets -/
@@ -401,7 +447,16 @@ stop at about `1e-5` relative precision, so the support-slack tolerance is ten t
 def Sh.curved : Sh → Bool
   | .cone .. => true
   | .cylinder .. => true
+  | .round .. => true
   | _ => false
+/-- support maps with a curved boundary: when such a shape is handed to GJK directly (the `*_with_params` histories; the
+dispatcher never sends a ball through GJK) the iteration converges only asymptotically and the fallback exits stop at about
+`1e-5` relative precision — the history oracles use ten times the tolerance for them -/
+def Sh.gjkCurved : Sh → Bool
+  | .ball _ => true
+  | .capsule .. => true
+  | s => s.curved
+def gjkTolScale (A B : Placed) : Rat := if A.sh.gjkCurved || B.sh.gjkCurved then 10 else 1
 def slackTolFor (A B : Placed) : Rat := tolFor A B * (if A.sh.curved || B.sh.curved then 10 else 1)
 
 /-- all the independent knowledge about the true distance: exact closed form (half-space pairs), certified hint
@@ -433,8 +488,9 @@ def robustCrossing (A B : Placed) : Bool :=
   | _, _ => false
 
 /-- verdict on a `closest_points` answer -/
-def judgeCP (A B : Placed) (maxDist : Rat) (res : Res) (hints : List Res) (extraPts : List Q3) (planar : Bool := false) : String :=
-  let tol := tolFor A B
+def judgeCP (A B : Placed) (maxDist : Rat) (res : Res) (hints : List Res) (extraPts : List Q3) (planar : Bool := false)
+    (tolScale : Rat := 1) : String :=
+  let tol := tolFor A B * tolScale
   let route := s!"route={A.sh.kind}x{B.sh.kind}"
   let kn := knowledge A B hints extraPts planar
   match res with
@@ -479,8 +535,9 @@ def judgeCP (A B : Placed) (maxDist : Rat) (res : Res) (hints : List Res) (extra
           | none => "skip no-certificate"
 
 /-- verdict on a `distance` answer -/
-def judgeDist (A B : Placed) (x : Rat) (hints : List Res) (extraPts : List Q3) (planar : Bool := false) : String :=
-  let tol := tolFor A B
+def judgeDist (A B : Placed) (x : Rat) (hints : List Res) (extraPts : List Q3) (planar : Bool := false)
+    (tolScale : Rat := 1) : String :=
+  let tol := tolFor A B * tolScale
   let route := s!"route={A.sh.kind}x{B.sh.kind}"
   let kn := knowledge A B hints extraPts planar
   if x < 0 then s!"fail {route} negative-distance" else
